@@ -499,6 +499,7 @@ class SymExec:
         self.fold_global = fold_global
         self.lang = lang
         self.inline_bound = inline_bound
+        self.out_params = set()
 
     def canon(self, env):
         return _InliningCanon(self, env)
@@ -570,6 +571,8 @@ class SymExec:
                 tgt = a[0]
                 if tgt.k == 'var':
                     st.env[tgt.a[0]] = v
+                    if tgt.a[0] in self.out_params:
+                        st.effects = st.effects + ((tgt.a[0], v.key()),)
                 elif tgt.k == 'init' and tgt.a[0] in ('tuple', 'list'):
                     self._unpack(st, tgt, v)
                 else:
@@ -714,3 +717,11 @@ def compare_summaries(sa, sb, facts=None, project=None, constraint=None, limit=2
         if oa != ob:
             diffs.append((val.describe(), oa, ob))
     return n, diffs
+
+
+def formulas_equivalent(f, g, facts=None):
+    """f <=> g on every valuation of the union of their atoms."""
+    for val in valuations([f, g], facts=facts):
+        if val.eval(f) != val.eval(g):
+            return False, val.describe()
+    return True, None
